@@ -110,10 +110,20 @@ StripCR(t) == IF t # << >> /\ t[Len(t)] = "<CR>" THEN SubSeq(t, 1, Len(t) - 1) E
 RECURSIVE LTrim(_)
 LTrim(t) == IF t # << >> /\ t[1] \in {" ", "<TAB>", "<LF>", "<CR>"} THEN LTrim(Tail(t)) ELSE t
 QuoteOf(s, idx) == LTrim(StripCR(SubSeq(s, LineStart(s, idx), LineEndPos(s, idx))))
+\* a line of more than 200 bytes may be quoted in part (marked with "..." where it is cut): whichever part is shown, it is
+\* a part of THAT line - it holds no line end and nothing of the lines around it
+StripDots(q) ==
+  LET a == IF Len(q) >= 3 /\ SubSeq(q, 1, 3) = <<".", ".", ".">> THEN SubSeq(q, 4, Len(q)) ELSE q
+  IN IF Len(a) >= 3 /\ SubSeq(a, Len(a) - 2, Len(a)) = <<".", ".", ".">> THEN SubSeq(a, 1, Len(a) - 3) ELSE a
+IsInfix(c, t) == \E i \in 1..(Len(t) - Len(c) + 1) : SubSeq(t, i, i + Len(c) - 1) = c
+QuoteOK(s, idx, q) ==
+  LET line == QuoteOf(s, idx) IN
+  IF LineEndPos(s, idx) - LineStart(s, idx) + 1 <= 200 THEN LTrim(q) = line
+  ELSE LTrim(q) = line \/ (LET c == StripDots(LTrim(q)) IN c # << >> /\ IsInfix(c, line))
 LocationJudge ==
   (l <= Len(Table) /\ ~Row.panic) =>
      /\ (Row.line # LineOf(Row.in, Row.idx) => Report(l, "line number"))
-     /\ (LTrim(Row.out) # QuoteOf(Row.in, Row.idx) => Report(l, "quoted line"))
+     /\ (~QuoteOK(Row.in, Row.idx, Row.out) => Report(l, "quoted line"))
 
 -----------------------------------------------------------------------------
 (* C15: description normal form                                            *)
